@@ -9,6 +9,7 @@ CONSTANTS
   BgFix = TRUE
   TrackAttribution = FALSE
   AttrEscapes = 1
+  KvSafeProp = "unsupported"
   EmitEdges = FALSE
 INIT Init
 NEXT Next
